@@ -15,7 +15,7 @@ def run(ctx):
     quick = ctx.tier == "quick"
     fc.run_property(ctx, "C06", profiles=["precond"], corpus_props=["C06"],
                     nscripts=400 if quick else 2500,
-                    configs=[(1, 1), (2, 1)] if quick else [(1, 1), (2, 1), (1, 2), (3, 1), (2, 2, 25)],
+                    configs=[(1, 1), (2, 1), (2, 2, 12)] if quick else [(1, 1), (2, 1), (1, 2), (3, 1), (2, 2, 40)],
                     trivial_rule=nontrivial)
     ctx.cov["rule"] = ("scripts spawning 1-6 precondition tasks (1-6 precondition words each, duplicates and chains on other tasks' "
                        "return words, array / variadic / _to / _simple entry points) interleaved with fill-kind and re-emptying "
